@@ -50,7 +50,7 @@ def run_batch(b):
         # answer-object interface
         # the answer around the Result-Code varies with n (header flags E/P/T, application, other AVPs, position of the
         # Result-Code, an answer decoded from bytes): the classification may depend on the code alone
-        shape = n % 12
+        shape = n % 14
         ans = DiameterAnswer(command_code=(280, 272, 316, 8388620)[n % 4], application_id=(0, 4, 16777251)[n % 3])
         if shape in (1, 5):
             ans.header.set_error_bit(True)
@@ -65,7 +65,7 @@ def run_batch(b):
             # an Experimental-Result beside the Result-Code (what a handler's answer looks like before it is decorated, or
             # what a peer may send): the predicates read the Result-Code, whatever family the experimental code is in
             from bromelia.avps import ExperimentalResultAVP, VendorIdAVP, ExperimentalResultCodeAVP
-            exp = (5420, 2001, 4181, 1001, 3002, 5012)[(n // 12) % 6]
+            exp = (5420, 2001, 4181, 1001, 3002, 5012)[(n // 14) % 6]
             er = ExperimentalResultAVP([VendorIdAVP(10415), ExperimentalResultCodeAVP(exp)])
             if shape == 9:
                 ans.pop("result_code_avp")
@@ -76,12 +76,26 @@ def run_batch(b):
             if shape == 10:
                 from bromelia.base import DiameterMessage
                 ans = DiameterMessage.load(ans.dump())[0]
+        if shape in (12, 13):
+            # another vendor's AVP that happens to have code 268 in that vendor's space (V flag, Vendor-Id), ahead of the
+            # Result-Code or behind it, carrying a number of another family: it is not the Result-Code
+            from bromelia.base import DiameterAVP, DiameterMessage
+            other = (2001, 5012, 3002, 4001, 1001, 7)[(n // 14) % 6]
+            foreign = DiameterAVP(code=268, vendor_id=(10415, 193, 8164)[(n // 14) % 3], flags=0x80, data=other.to_bytes(4, "big"))
+            if shape == 12:
+                ans.pop("result_code_avp")
+                ans.append(foreign)
+                ans.append(ResultCodeAVP(n))
+            else:
+                ans.append(foreign)
+            if (n // 14) % 2:
+                ans = DiameterMessage.load(ans.dump())[0]
         if shape == 11:
             # a typed answer class of an application library, Result-Code given to the constructor
             from bromelia.lib.etsi_3gpp_s6a import ULA, CLA
             from bromelia.lib.ietf_rfc6733 import DWA
             ans = (lambda: ULA(result_code=n.to_bytes(4, "big")), lambda: CLA(result_code=n.to_bytes(4, "big")),
-                   lambda: DWA(result_code=n.to_bytes(4, "big")))[(n // 12) % 3]()
+                   lambda: DWA(result_code=n.to_bytes(4, "big")))[(n // 14) % 3]()
         if shape == 7:
             from bromelia.base import DiameterMessage
             ans = DiameterMessage.load(ans.dump())[0]
@@ -156,7 +170,7 @@ def main(tier, seed):
     distinct = acc.extra.pop("distinct_judged", 0)
     rc = harness.finish(PROP, tier, seed, "exploration", acc, RULE,
                         ["ResultCodeAVP(n) carries n unchanged (checked by C10/C01)",
-                         "answer-object predicates are read through has_avp('result_code_avp') on answers of twelve shapes (E/T flag set, other AVPs before/after, other commands and applications, decoded from bytes, an Experimental-Result before/after the Result-Code, typed answer classes)"],
+                         "answer-object predicates are read through has_avp('result_code_avp') on answers of fourteen shapes (a vendor-specific AVP with code 268 before/after the Result-Code, E/T flag set, other AVPs before/after, other commands and applications, decoded from bytes, an Experimental-Result before/after the Result-Code, typed answer classes)"],
                         t0, extra_cov={"distinct_nontrivial": distinct,
                                        "range_exhaustive": "0..65535 through both interfaces"},
                         exhaustive=True, require_counters=("int_predicate_calls", "obj_predicate_calls", "reclassified_after_change"))
